@@ -451,6 +451,14 @@ def _sqlite_connect(p):
     return sqlite3.connect(p)
 
 
+def _mem(p):
+    return etl.MemorySource(open(p, "rb").read())
+
+
+E("fromcsv_mem", 1, lambda S, p: etl.fromcsv(_mem(p), encoding="utf-8"), "file", prepare=_prep_csv)
+E("frompickle_mem", 1, lambda S, p: etl.frompickle(_mem(p)), "file", prepare=_prep_pickle)
+E("fromjson_lines_mem", 1, lambda S, p: etl.fromjson(_mem(p), lines=True, header=list(H)), "file", prepare=lambda S, tmp: _prep_json(S, tmp, True))
+E("fromtext_mem", 1, lambda S, p: etl.fromtext(_mem(p), encoding="utf-8"), "file", prepare=_prep_text)
 E("fromcsv", 1, lambda S, p: etl.fromcsv(p, encoding="utf-8"), "file stream", prepare=_prep_csv)
 E("fromcsv_header", 1, lambda S, p: etl.fromcsv(p, header=["a", "b", "c", "d"], encoding="utf-8"), "file stream", prepare=_prep_csv,
   empty=[("a", "b", "c", "d"), H])
